@@ -163,3 +163,51 @@ Theorem C14_tie_readVariableLength : forall fuel d pos,
                 (TransTactics.res_map TransEquivJsonRead.val_pos (read_varlen d pos)).
 Proof. exact TransEquivJsonRead.readVariableLength_equiv. Qed.
 Print Assumptions C14_tie_readVariableLength.
+
+(* The scalar printers (literals, the six integer widths, doubles through the oracle efmt, strings, and the opaque
+   DATE / TIME / DATETIME payloads) are translated as well (gen/TransJsonPrint.v; a `result *bytes.Buffer` parameter is
+   the bytes written so far, returned with what the function appended): each appends exactly the text the model
+   function of Model/Json.v prints - the functions print_json is made of - for every input.  The container printers,
+   printJSONOpaque and printJSONDecimal are not translated (DESIGN A.7: they re-slice into the capacity of the buffer). *)
+From GB Require Proofs.TransEquivJsonPrint.
+From GBGen Require TransJsonPrint.
+Theorem C14_tie_printJSONLiteral : forall b top r,
+  GoSem.res_sim (TransJsonPrint.printJSONLiteral_g b top r) (TransEquivJsonPrint.appended r (print_literal b top)).
+Proof. exact TransEquivJsonPrint.printJSONLiteral_equiv. Qed.
+Print Assumptions C14_tie_printJSONLiteral.
+
+Theorem C14_tie_printJSON_integers : forall d top r, wf_bytes d ->
+  GoSem.res_sim (TransJsonPrint.printJSONInt16_g d top r) (TransEquivJsonPrint.appended r (do s <- slice d 0 2; Ok (print_int16 s top))) /\
+  GoSem.res_sim (TransJsonPrint.printJSONUint16_g d top r) (TransEquivJsonPrint.appended r (do s <- slice d 0 2; Ok (print_uint16 s top))) /\
+  GoSem.res_sim (TransJsonPrint.printJSONInt32_g d top r) (TransEquivJsonPrint.appended r (do s <- slice d 0 4; Ok (print_int32 s top))) /\
+  GoSem.res_sim (TransJsonPrint.printJSONUint32_g d top r) (TransEquivJsonPrint.appended r (do s <- slice d 0 4; Ok (print_uint32 s top))) /\
+  GoSem.res_sim (TransJsonPrint.printJSONInt64_g d top r) (TransEquivJsonPrint.appended r (do s <- slice d 0 8; Ok (print_int64 s top))) /\
+  GoSem.res_sim (TransJsonPrint.printJSONUint64_g d top r) (TransEquivJsonPrint.appended r (do s <- slice d 0 8; Ok (print_uint64 s top))).
+Proof.
+  exact (fun d top r W => conj (TransEquivJsonPrint.printJSONInt16_equiv d top r W) (conj (TransEquivJsonPrint.printJSONUint16_equiv (fun _ => []) d top r W)
+    (conj (TransEquivJsonPrint.printJSONInt32_equiv d top r W) (conj (TransEquivJsonPrint.printJSONUint32_equiv (fun _ => []) d top r W)
+    (conj (TransEquivJsonPrint.printJSONInt64_equiv d top r W) (TransEquivJsonPrint.printJSONUint64_equiv d top r W)))))).
+Qed.
+Print Assumptions C14_tie_printJSON_integers.
+
+Theorem C14_tie_printJSONDouble : forall efmt d top r, wf_bytes d ->
+  GoSem.res_sim (TransJsonPrint.printJSONDouble_g efmt d top r)
+                (TransEquivJsonPrint.appended r (do s <- slice d 0 8; Ok (print_double efmt s top))).
+Proof. exact TransEquivJsonPrint.printJSONDouble_equiv. Qed.
+Print Assumptions C14_tie_printJSONDouble.
+
+Theorem C14_tie_printJSONString : forall fuel d top r,
+  wf_bytes d -> (List.length d < fuel)%nat -> Z.of_nat (List.length d) < 2 ^ 62 ->
+  GoSem.res_sim (TransJsonPrint.printJSONString_g fuel d top r) (TransEquivJsonPrint.appended r (print_string d top)).
+Proof. exact TransEquivJsonPrint.printJSONString_equiv. Qed.
+Print Assumptions C14_tie_printJSONString.
+
+Theorem C14_tie_printJSON_temporal : forall d top r, wf_bytes d ->
+  GoSem.res_sim (TransJsonPrint.printJSONDate_g d top r) (TransEquivJsonPrint.appended r (do b8 <- slice d 0 8; Ok (print_date b8 top))) /\
+  GoSem.res_sim (TransJsonPrint.printJSONTime_g d top r) (TransEquivJsonPrint.appended r (do b8 <- slice d 0 8; Ok (print_time b8 top))) /\
+  GoSem.res_sim (TransJsonPrint.printJSONDateTime_g d top r) (TransEquivJsonPrint.appended r (do b8 <- slice d 0 8; Ok (print_datetime b8 top))).
+Proof.
+  exact (fun d top r W => conj (TransEquivJsonPrint.printJSONDate_equiv d top r W)
+    (conj (TransEquivJsonPrint.printJSONTime_equiv d top r W) (TransEquivJsonPrint.printJSONDateTime_equiv d top r W))).
+Qed.
+Print Assumptions C14_tie_printJSON_temporal.
